@@ -27,7 +27,7 @@ run > /tmp/seed_without.txt
 git apply $OUT/patch.diff
 echo "--- verdicts that differ (with change  |  without change):"
 diff /tmp/seed_with.txt /tmp/seed_without.txt > /tmp/seed_diff.txt; cat /tmp/seed_diff.txt
-for d in $DEMOS; do mkdir -p $OUT/demo/$(dirname $d); cp $d $OUT/demo/$d; done
+for d in $DEMOS; do mkdir -p $OUT/demo/$(dirname $d); cp -r $d $OUT/demo/$(dirname $d)/; done
 [ -f MUTATION.md ] && cp MUTATION.md $OUT/MUTATION.md
 WITHFAIL=$(grep -c "^<.* fail" /tmp/seed_diff.txt); 
 echo "demo/tests failing only WITH change: $WITHFAIL"
